@@ -5,10 +5,13 @@
      string_re = lex.rs STRING_RE (with fix-2) as a scanner
      unescape  = parser.rs unescape_string (second component: number of
                  invalid escape sequences reported)
-   Lists / tuples / dicts / ints / floats: not proved here (search in
+   and, below, THE LITERAL FRAGMENT (ReadLit.v / ReadLitProps.v): integers,
+   strings, True / False / Unit / None, Some / Ok / Err, lists and tuples, nested
+   arbitrarily.  Floats, dicts and structs: not proved (search in
    tools/props/C12.py). *)
 From Coq Require Import NArith Bool List.
-From Garden Require Import Base.Utf Lex LexProps.
+From Coq Require Import ZArith.
+From Garden Require Import Base.Utf Lex LexProps ReadLit ReadLitProps.
 Import ListNotations.
 Open Scope N_scope.
 
@@ -57,3 +60,52 @@ Theorem unfixed_string_re_refuted :
   string_re false (escape str_a_backslash ++ rest_comma_b) <> Some (escape str_a_backslash).
 Proof. exact orig_string_re_refuted. Qed.
 Print Assumptions unfixed_string_re_refuted.
+
+(* ------------------------------------------------------------------ *)
+(* The literal fragment.  `lit` / `show` / `read_literal` are ReadLit.v's own
+   small value tree, printer (Value::display for these constructors) and
+   reader (the success paths of the parser on this grammar: parse_integer
+   with `_` separators and i64 range, unescape_string, tuple / list / call
+   parsing); `printable v` says every integer in v is an i64.
+
+   For ALL printable values v of the fragment (any nesting depth, strings over
+   all scalar values, integers down to i64::MIN): the printed text lexes without
+   errors or comments into tokens that the reader turns back into exactly v,
+   consuming all of them.  "_partial": floats, dicts and structs are not in
+   the fragment, and the evaluation of the literal (the reader interprets
+   True .. Err(x) as the prelude's constructors) is modelled, not the evaluator. *)
+Theorem literal_roundtrip_partial : forall v : lit, printable v = true ->
+  exists toks, lex (show v) = LexOk toks [] [] /\ read_literal toks = Some (v, []).
+Proof. exact literal_roundtrip_lemma. Qed.
+Print Assumptions literal_roundtrip_partial.
+
+(* the same, as the function the extracted driver runs *)
+Theorem read_source_show_partial : forall v : lit, printable v = true -> read_source (show v) = Some v.
+Proof. exact read_source_show. Qed.
+Print Assumptions read_source_show_partial.
+
+(* integer tokens: printing an i64 and reading the token gives it back *)
+Theorem integer_token_roundtrip : forall z : Z, in_i64 z = true -> parse_i64 (show_int z) = Some z.
+Proof. exact parse_show_int. Qed.
+Print Assumptions integer_token_roundtrip.
+
+(* Non-vacuity: [Some(-9223372036854775808), (1,), ("a\", True), (), [], Ok(Err(Unit))] *)
+Example literal_roundtrip_example :
+  printable sample_value = true /\
+  read_source (show sample_value) = Some sample_value /\
+  show sample_value =
+    [91; 83; 111; 109; 101; 40; 45; 57; 50; 50; 51; 51; 55; 50; 48; 51; 54; 56; 53; 52; 55; 55; 53; 56; 48;
+     56; 41; 44; 32; 40; 49; 44; 41; 44; 32; 40; 34; 97; 92; 92; 34; 44; 32; 84; 114; 117; 101; 41; 44; 32;
+     40; 41; 44; 32; 91; 93; 44; 32; 79; 107; 40; 69; 114; 114; 40; 85; 110; 105; 116; 41; 41; 93].
+Proof. exact sample_value_roundtrip. Qed.
+Print Assumptions literal_roundtrip_example.
+
+(* 9223372036854775808 is refused (the parser reports it as out of range),
+   -9223372036854775808 and 1_000 are read. *)
+Example integer_range_example :
+  parse_i64 [57; 50; 50; 51; 51; 55; 50; 48; 51; 54; 56; 53; 52; 55; 55; 53; 56; 48; 56] = None /\
+  parse_i64 [45; 57; 50; 50; 51; 51; 55; 50; 48; 51; 54; 56; 53; 52; 55; 55; 53; 56; 48; 56] =
+    Some (-9223372036854775808)%Z /\
+  parse_i64 [49; 95; 48; 48; 48] = Some 1000%Z.
+Proof. exact out_of_range_refused. Qed.
+Print Assumptions integer_range_example.
